@@ -77,7 +77,18 @@ Definition ext_widened (o : obs) : list (Z * raw) :=
   let e := o_ext o in
   [ (x_nmad e, x_nm e); (o_nmul o, x_np e); (o_ndiv o, x_nq e); (o_nadd o, x_ns e) ].
 
-Inductive case := Case (op : opk) (a b : Z) (o : obs).
+(** ** straight-line programs over the crate's operations (constructor [Trace])
+    Registers r0 = f80::from(a), r1 = f80::from(b); step k computes r(k+2) = op(r_i, r_j) and records the raw
+    result, [f64::from] of it, and the relation code of the ordered operand pair (r_i, r_j) (the six relations
+    taken through references to the two registers: the SAME reference twice when i = j).  Operands are therefore
+    arbitrary extended-format values: results of earlier steps (differences, products, quotients, negations,
+    [min]/[max]/[abs] results, f80 overflows to infinity, f80 denormals). *)
+Inductive top := TAdd | TSub | TMul | TDiv | TNeg | TAbs | TMin | TMax | TRnd.
+Inductive tstep := TS (op : top) (i j : nat) (r : raw) (n : Z) (code : Z).
+
+Inductive case :=
+| Case (op : opk) (a b : Z) (o : obs)
+| Trace (a b : Z) (wa wb : raw) (steps : list tstep).
 
 Definition sel (op k : opk) : bool := opk_eqb op OAll || opk_eqb op k.
 (** [on op k c]: check [c] only when group [k] is selected (a notation: [vm_compute] is call by value) *)
@@ -86,9 +97,41 @@ Notation on op k c := (if sel op k then c else true) (only parsing).
 Definition pcmp_code (c : option comparison) : Z :=
   match c with None => 0 | Some Lt => 1 | Some Eq => 2 | Some Gt => 3 end.
 
+(** the executor's relation code [u<v] + 2[u<=v] + 4[u>v] + 8[u>=v] + 16[u==v] + 32*partial_cmp, by the model *)
+Definition b2z (b : bool) : Z := if b then 1 else 0.
+Definition rel_code (u v : spec_float) : Z :=
+  b2z (lt80 u v) + 2 * b2z (le80 u v) + 4 * b2z (gt80 u v) + 8 * b2z (ge80 u v) + 16 * b2z (eq80 u v)
+  + 32 * pcmp_code (partial_cmp80 u v).
+(** one operation of a trace, by the model ([TRnd] is [f80::from(f64::from(u))]; the assigning operators are
+    the same model functions: [*self = self.add(rhs)]) *)
+Definition top_model (op : top) (u v : spec_float) : spec_float :=
+  match op with
+  | TAdd => add80 u v | TSub => sub80 u v | TMul => mul80 u v | TDiv => div80 u v
+  | TNeg => neg80 u | TAbs => abs80 u | TMin => min80 u v | TMax => max80 u v
+  | TRnd => widen (narrow u)
+  end.
+(** the registers hold the MODEL's values *)
+Fixpoint trace_model (regs : list spec_float) (steps : list tstep) : bool :=
+  match steps with
+  | [] => true
+  | TS op i j r n code :: rest =>
+      let u := nth i regs S754_nan in
+      let v := nth j regs S754_nan in
+      let m := top_model op u v in
+      Nat.ltb i (List.length regs) && Nat.ltb j (List.length regs)
+      && raw_same (encode80 m) r && bits_same (encode64 (narrow m)) n
+      && (code =? rel_code u v)
+      && trace_model (regs ++ [m]) rest
+  end.
+
 (** ** implementation = model *)
 Definition model_check (c : case) : bool :=
-  let '(Case op a b o) := c in
+  match c with
+  | Trace a b wa wb steps =>
+      let x := widen (decode64 a) in
+      let y := widen (decode64 b) in
+      raw_same (encode80 x) wa && raw_same (encode80 y) wb && trace_model [x; y] steps
+  | Case op a b o =>
   let x := widen (decode64 a) in
   let y := widen (decode64 b) in
   let same r v := raw_same (encode80 v) r in
@@ -128,7 +171,8 @@ Definition model_check (c : case) : bool :=
         && rel q nq (x_q_nq e) && rel nq q (x_nq_q e) && rel s ns (x_s_ns e) && rel ns s (x_ns_s e)
         && rel m p (x_m_p e) && rel p s (x_p_s e) && rel s q (x_s_q e)
         && same (x_am e) (abs80 m) && same (x_ap e) (abs80 p) && same (x_aq e) (abs80 q)
-        && same (x_as e) (abs80 s)).
+        && same (x_as e) (abs80 s))
+  end.
 
 (** ** the specification, decided on integers *)
 
@@ -310,8 +354,60 @@ Definition spec_abs (u a : raw) : bool :=
   if is_nan_sf (decode80 u) then true
   else raw_eqb (clear_raw a) (clear_raw u) && cmp_in (xcmp (decode80 a) (S754_zero false)) [Gt; Eq].
 
+(** *** traces: every step judged on the OBSERVED raw operands *)
+(** the relation code of the exact order of two decoded operands (NaN unordered, -0 = +0) *)
+Definition xrel_code (U V : spec_float) : Z :=
+  let c := xcmp U V in
+  b2z (cmp_in c [Lt]) + 2 * b2z (cmp_in c [Lt; Eq]) + 4 * b2z (cmp_in c [Gt]) + 8 * b2z (cmp_in c [Gt; Eq])
+  + 16 * b2z (cmp_in c [Eq]) + 32 * pcmp_code c.
+(** the result [r] (and, for [TRnd], the binary64 value [n] in between) of one operation on the observed
+    operand raws [u], [v]: IEEE table + correct rounding of the exact result; negation flips the sign bit;
+    [min]/[max] return the smaller / larger operand of the exact order (either on a tie, nothing is required
+    when an operand is a NaN); [abs] as [spec_abs] *)
+Definition top_spec (op : top) (u v r : raw) (n : Z) : bool :=
+  let U := decode80 u in
+  let V := decode80 v in
+  let R := decode80 r in
+  match op with
+  | TAdd => spec_add 64 16384 U V R
+  | TSub => spec_add 64 16384 U (flip V) R
+  | TMul => spec_mul 64 16384 U V R
+  | TDiv => spec_div 64 16384 U V R
+  | TNeg => if is_nan_sf U then is_nan_raw r else raw_eqb r (flip_raw u)
+  | TAbs => spec_abs u r
+  | TMin => match xcmp U V with
+            | Some Lt => raw_eqb r u | Some Gt => raw_eqb r v
+            | Some Eq => raw_eqb r u || raw_eqb r v | None => true
+            end
+  | TMax => match xcmp U V with
+            | Some Lt => raw_eqb r v | Some Gt => raw_eqb r u
+            | Some Eq => raw_eqb r u || raw_eqb r v | None => true
+            end
+  | TRnd => spec_round 53 1024 U (decode64 n) && spec_widen (decode64 n) r
+  end.
+(** the registers hold the OBSERVED raws *)
+Fixpoint trace_spec (regs : list raw) (steps : list tstep) : bool :=
+  match steps with
+  | [] => true
+  | TS op i j r n code :: rest =>
+      let u := nth i regs (0, 0) in
+      let v := nth j regs (0, 0) in
+      Nat.ltb i (List.length regs) && Nat.ltb j (List.length regs)
+      && valid_binary 64 16384 (decode80 u) && valid_binary 64 16384 (decode80 v)
+      && top_spec op u v r n
+      && spec_round 53 1024 (decode80 r) (decode64 n)
+      && (code =? xrel_code (decode80 u) (decode80 v))
+      && trace_spec (regs ++ [r]) rest
+  end.
+
+(** the raw result recorded in a step (the registers of a trace are r0, r1 and these, in order) *)
+Definition step_raw (s : tstep) : raw := let '(TS _ _ _ r _ _) := s in r.
+
 Definition spec_check (c : case) : bool :=
-  let '(Case op a b o) := c in
+  match c with
+  | Trace a b wa wb steps =>
+      spec_widen (decode64 a) wa && spec_widen (decode64 b) wb && trace_spec [wa; wb] steps
+  | Case op a b o =>
   let va := decode64 a in
   let vb := decode64 b in
   (* the operands of the arithmetic are the OBSERVED widened values *)
@@ -357,11 +453,11 @@ Definition spec_check (c : case) : bool :=
         && spec_round 53 1024 (decode80 (o_mad o)) (decode64 (x_nmad (o_ext o)))
         && forallb (fun t => let '(n, w) := t in spec_widen (decode64 n) w) (ext_widened o)
         && forallb (fun t => let '(u, v, r) := t in spec_rel u v r) (ext_pairs o)
-        && forallb (fun t => let '(u, a) := t in spec_abs u a) (ext_abs o)).
+        && forallb (fun t => let '(u, a) := t in spec_abs u a) (ext_abs o))
+  end.
 
 (** what the model computes on the input of a case (for replay files) *)
-Definition explain (c : case) :=
-  let '(Case op a b o) := c in
+Definition explain_case (op : opk) (a b : Z) (o : obs) :=
   let x := widen (decode64 a) in
   let y := widen (decode64 b) in
   (("x,y,add,sub,mul,div,neg,mad,chain"%string,
@@ -381,6 +477,31 @@ Definition explain (c : case) :=
      (encode64 (narrow m), [encode80 nm; encode80 np; encode80 nq; encode80 ns],
       [rel m nm; rel nm m; rel p np; rel np p; rel q nq; rel nq q; rel s ns; rel ns s; rel m p; rel p s; rel s q],
       [encode80 (abs80 m); encode80 (abs80 p); encode80 (abs80 q); encode80 (abs80 s)])))).
+(** for a trace: the model's registers r0, r1 and, per step, (raw result, f64::from of it, relation code of the
+    operand pair) *)
+Fixpoint explain_steps (regs : list spec_float) (steps : list tstep) : list (raw * Z * Z) :=
+  match steps with
+  | [] => []
+  | TS op i j _ _ _ :: rest =>
+      let u := nth i regs S754_nan in
+      let v := nth j regs S754_nan in
+      let m := top_model op u v in
+      (encode80 m, encode64 (narrow m), rel_code u v) :: explain_steps (regs ++ [m]) rest
+  end.
+Definition explain_trace (a b : Z) (steps : list tstep) :=
+  let x := widen (decode64 a) in
+  let y := widen (decode64 b) in
+  ("trace: r0, r1; per step (raw, f64 bits, relation code of the operands)"%string,
+   [encode80 x; encode80 y], explain_steps [x; y] steps).
+Definition explain_case_ty : Type :=
+  ltac:(match type of explain_case with _ -> _ -> _ -> _ -> ?T => exact T end).
+Definition explain_trace_ty : Type :=
+  ltac:(match type of explain_trace with _ -> _ -> _ -> ?T => exact T end).
+Definition explain (c : case) : match c with Case _ _ _ _ => explain_case_ty | Trace _ _ _ _ _ => explain_trace_ty end :=
+  match c with
+  | Case op a b o => explain_case op a b o
+  | Trace a b _ _ steps => explain_trace a b steps
+  end.
 
 (** ** literals of the batch files
     Decimal [Z] literals of 20 digits cost about 1 ms each to parse; primitive-integer literals
@@ -403,6 +524,8 @@ Definition rel_of (u v : raw) (l : rlit) : relobs :=
   let c := Uint63.to_Z code in
   mkRel (Z.testbit c 0) (Z.testbit c 1) (Z.testbit c 2) (Z.testbit c 3) (Z.testbit c 4) (Z.shiftr c 5)
         (pick u v mn) (pick u v mx).
+(** one step of a trace with the relation code as a primitive-integer literal *)
+Definition TSI (op : top) (i j : nat) (r : raw) (n : Z) (code : int) : tstep := TS op i j r n (Uint63.to_Z code).
 (** the whole observation line, in the order the executor prints it *)
 Definition OBS (wa wb add sub mul div neg mad chain : raw) (back nadd nsub nmul ndiv nchain : Z)
     (lt le gt ge eq : bool) (pc : Z) (mn mx ab : raw)
